@@ -109,6 +109,8 @@ def gate_table(rng):
         add((f"vmdk.{kind}.magic", [("bit", b) for b in range(64 if kind == "sesparse" else 32)]))
         add((f"vmdk.{kind}.magic-via-descriptor", [("bit", b) for b in range(0, 32, 3)]))
     # stream-optimized extents carry a second header (the footer) that replaces the first: its magic is validated too
+    # a delta disk (parentCID set) that does not say where its parent is must not be opened as if it had none
+    add(("vmdk.delta.no-parent-hint", [(how, cid) for how in ("descriptor", "embedded") for cid in ("11111111", "fffffffe", "00000000")]))
     add(("vmdk.stream.footer-magic", [("bit", b) for b in range(32)]))
     add(("vmdk.stream.footer-magic-via-list", [("bit", b) for b in range(0, 32, 3)]))
     add(("hyperv.header-signature", [("bit", b) for b in range(32)]))
@@ -142,6 +144,7 @@ CONTROL_VALUES = {
     "hyperv.active-header-signature-only": [(1, 0), (2, 0), ("tie", 0)],
     "qcow2.data-file-missing": ["named", "unnamed"],
     "vhdx.parent-of-unnamed-stream": ["bytesio"],
+    "vmdk.delta.no-parent-hint": [("descriptor", None), ("embedded", None)],
 }
 
 
@@ -278,7 +281,7 @@ def _apply(gate: str, value, control: bool, ctx, rng):
             loc = wvhdx.parent_locator([("relative_path", ".\\p.vhdx"), ("parent_linkage", "{83ed0ec1-24c8-49a6-a959-5e4bd1288015}")])
             sf, _, _ = wvhdx.build(rng, block_size=MBb, sector_size=512, nblocks=2, states=[6, 0], tag=2, has_parent=not control, locator=None if control else loc,
                                    checksums=False)
-            fh = io.BytesIO(sf.to_bytes()) if value == "bytesio" or control else as_handle(sf)
+            fh = io.BytesIO(sf.to_bytes()) if value == "bytesio" or control else as_handle(sf, name=False)
             return call(lambda: VHDX(fh).read(512))
         elif what in ("unknown-required-region", "unknown-required-item"):
             g = bytes(rng.randrange(256) for _ in range(16))
@@ -347,6 +350,17 @@ def _apply(gate: str, value, control: bool, ctx, rng):
             if how == "footer-magic":
                 return call(lambda: SparseDisk(io.BytesIO(bytes(raw))).read_sectors(0, 1))
             return call(lambda: VMDK([io.BytesIO(bytes(raw))]).read(512))
+        if kind == "delta":
+            d = Path(ctx.tmpdir())
+            embedded = (value or ("descriptor",))[0] == "embedded"
+            text = wvmdk.descriptor_text([f'RW 300 SPARSE "{"d.vmdk" if embedded else "e.vmdk"}"'], cid="22222222", parent_cid="ffffffff" if control else value[1], parent_hint=None)
+            sf, _, _ = wvmdk.build_hosted(rng, capacity=300, grain=8, ngte=64, tag=5, descriptor=text if embedded else None)
+            if embedded:
+                sf.write_to(str(d / "d.vmdk"))
+            else:
+                sf.write_to(str(d / "e.vmdk"))
+                (d / "d.vmdk").write_text(text)
+            return call(lambda: VMDK(d / "d.vmdk").read(512))
         src = {"kdmv": "vmdk-hosted", "cowd": "vmdk-cowd", "sesparse": "vmdk-sesparse"}[kind]
         raw = bytearray(inps[src].raw)
         if not control:
